@@ -22,8 +22,9 @@ section "Round 3d: C19".
     side conditions: `<RE>` is bound exactly once in the module, at top level, by `re.compile(...)`, and is not
     rebound in the function; `m` is a plain name whose every other occurrence in the function is one of L2's forms
     inside the loop body; exactly one such loop per declared regex.
- L2 `m.start(g)` / `m.end(g)` / `m.span(g)` with g the declared group (or g omitted / 0 when the declared group is the
-    whole pattern, checked on the parsed pattern)                    -> `m[0]` / `m[1]` / `m`
+ L2 `m.start(g)` / `m.end(g)` / `m.span(g)` / `a, b = m.span(g)` with g the declared group (g omitted = 0; 0 and 1 are
+    interchangeable when group 1 is the whole pattern, checked on the parsed pattern)
+                                                                     -> `m[0]` / `m[1]` / `m` / `a, b = m[0], m[1]`
  L3 the empty string literal `''` in a function whose declared texts are polymorphic lists (`List a`) -> `[]`
     (a str is the list of its code points; a non-empty literal is left alone and refused by the base translator).
  L5 a parameter the spec declares a PREDICATE on texts (`c19.pred: {key: op}`): it leaves the parameter list and
@@ -34,6 +35,8 @@ section "Round 3d: C19".
  L6 `S.join(E)`, `S` a declared text parameter                        -> `%c19.join(S, E)` = `PyRtC19.join`
  L7 default values of parameters are dropped (the generated definition takes every parameter explicitly; a default is
     API, evaluated once, and not part of what the tie says).
+ L8 `isinstance(<T>, str)`, `<T>` a declared text                        -> `True` (the declared kind; the base translator
+    would decide a kind test by the declared Lean type - a list - and drop the branch); against any other class: refused.
  L4 `f(<T>)` where `f` is a function of the same spec group translated BEFORE this one and given extra parameters by
     L1, `<T>` a declared text parameter of this function             -> `f(<T>, P...)`, and this function gets the same
     extra parameters (they stand for the same thing: the regex applied to the same text).
@@ -117,9 +120,12 @@ class _Rewrite(ast.NodeTransformer):
         if call.keywords or len(call.args) > 1:
             return False
         if not call.args:
-            return self.whole
+            return self.group == 0 or self.whole
         a = call.args[0]
-        return isinstance(a, ast.Constant) and type(a.value) is int and (a.value == self.group or (a.value == 0 and self.whole))
+        if not (isinstance(a, ast.Constant) and type(a.value) is int):
+            return False
+        # `whole`: group 1 of the pattern is the whole pattern, so groups 0 and 1 have the same spans
+        return a.value == self.group or (self.whole and a.value in (0, 1) and self.group in (0, 1))
 
     def visit_Call(self, n):
         f = n.func
@@ -132,6 +138,14 @@ class _Rewrite(ast.NodeTransformer):
                 return ast.copy_location(base, n)
             return ast.copy_location(ast.Subscript(value=base, slice=ast.Constant(value=0 if f.attr == 'start' else 1),
                                                    ctx=ast.Load()), n)
+        if isinstance(f, ast.Name) and f.id == 'isinstance' and len(n.args) == 2 and not n.keywords \
+                and isinstance(n.args[0], ast.Name) and n.args[0].id in getattr(self, 'texts', ()):
+            # L8: the declared kind of a text parameter is `str` (the base translator would decide the test by the
+            # declared Lean type, a list, and drop the branch)
+            if isinstance(n.args[1], ast.Name) and n.args[1].id == 'str':
+                self.notes.add('c19:text-is-str')
+                return ast.copy_location(ast.Constant(value=True), n)
+            raise Unsupported(n, 'kind test of a declared text against something else than `str`')
         if isinstance(f, ast.Name) and f.id in getattr(self, 'preds', {}) and len(n.args) == 1 and not n.keywords \
                 and not isinstance(n.args[0], ast.Starred):
             self.notes.add('c19:predicate-call')
@@ -144,6 +158,22 @@ class _Rewrite(ast.NodeTransformer):
             op = ast.Name(id=OP + 'join', ctx=ast.Load())
             return ast.copy_location(ast.Call(func=op, args=[ast.Name(id=f.value.id, ctx=ast.Load()),
                                                              self.visit(n.args[0])], keywords=[]), n)
+        self.generic_visit(n)
+        return n
+
+    def visit_Assign(self, n):
+        v = n.value
+        if len(n.targets) == 1 and isinstance(n.targets[0], ast.Tuple) and len(n.targets[0].elts) == 2 \
+                and all(isinstance(e, ast.Name) for e in n.targets[0].elts) \
+                and isinstance(v, ast.Call) and isinstance(v.func, ast.Attribute) and v.func.attr == 'span' \
+                and isinstance(v.func.value, ast.Name) and v.func.value.id in self.mvars and self._group_ok(v):
+            self.notes.add('c19:match-span')
+            parts = []
+            for i in (0, 1):
+                base = ast.Name(id=v.func.value.id, ctx=ast.Load())
+                base._c19_ok = True
+                parts.append(ast.Subscript(value=base, slice=ast.Constant(value=i), ctx=ast.Load()))
+            return ast.copy_location(ast.Assign(targets=n.targets, value=ast.Tuple(elts=parts, ctx=ast.Load())), n)
         self.generic_visit(n)
         return n
 
@@ -194,7 +224,7 @@ def prepass(fdef, tree, spec, notes):
             raise Unsupported(lp, 'the match object is unpacked')
         if pname in {a.arg for a in f.args.args} or any(isinstance(n, ast.Name) and n.id == pname for n in ast.walk(f)):
             raise Unsupported(lp, 'the name %s reserved for the regex operation is used by the source' % pname)
-        whole = whole and _group_is_whole(call, group)
+        whole = whole and _group_is_whole(call, 1)
         mvars.add(lp.target.id)
         lp.iter = ast.copy_location(ast.Name(id=pname, ctx=ast.Load()), it)
         extra.append(pname)
@@ -238,6 +268,7 @@ def prepass(fdef, tree, spec, notes):
         notes.add('c19:predicate-param')
     # L2 / L3 / L5 / L6
     rw = _Rewrite(mvars, group, whole, bool(cfg.get('poly_text')))
+    rw.texts = set(texts) | set(cfg.get('text_params', []))
     rw.preds, rw.join_on = preds, (set(texts) | set(cfg.get('text_params', []))) if cfg.get('join') else set()
     f.body = [rw.visit(st) for st in f.body]
     notes.update(rw.notes)
